@@ -6,6 +6,7 @@ import GraafVerif.Proof.JohnsonTop2
 import GraafVerif.Proof.JohnsonTarjan3
 import GraafVerif.Proof.JohnsonFuel
 import GraafVerif.Proof.JohnsonDriverGraph
+import GraafVerif.Proof.JohnsonRepeat
 /-!
 # C10 — Johnson75 enumerates every elementary circuit exactly once
 
@@ -107,6 +108,23 @@ theorem statement_on_driver_graphs (n : Nat) (arcs : List (Nat × Nat))
   obtain ⟨h1, h2, h3⟩ := Johnson.driver_graph_ok n arcs hv
   exact johnson_perm_allCircuits _ h1 h2 h3
 
+/-! ## State carried between calls -/
+
+/-- `circuits()` called `k` times on the SAME `Johnson75` value (`blocked`, `b`, `stack` survive a
+call — e.g. the root of every trivial component stays blocked — only `result` is fresh): EVERY
+call returns each elementary circuit exactly once, in canonical form, and nothing else.  The
+per-root reset loop of `circuits` is what makes each round independent of the stale state. -/
+theorem johnson_repeat_statement (g : Graph) (hwf : g.WF) (hloops : NoLoops g) (hrows : RowsNodup g)
+    (k : Nat) : (circuitsRepeat (AM.ofGraph g) k (JState.new (AM.ofGraph g))).length = k ∧
+    ∀ out ∈ circuitsRepeat (AM.ofGraph g) k (JState.new (AM.ofGraph g)),
+      out.Nodup ∧ ∀ c, c ∈ out ↔ IsCanonicalElemCircuit g c :=
+  ⟨Johnson.circuitsRepeat_length _ k _,
+   Johnson.repeat_statement g hwf hloops hrows k _ (Johnson.GInv2.new g)⟩
+
+/-- The first of the repeated calls is `circuits g`. -/
+theorem johnson_repeat_first (g : Graph) (k : Nat) :
+    (circuitsRepeat (AM.ofGraph g) (k+1) (JState.new (AM.ofGraph g))).head? = some (circuits g) := rfl
+
 /-- Fuel adequacy of `unblock`: any fuel above the number of blocked vertices gives the same
 result (each recursion level removes one vertex from `blocked`). -/
 theorem unblock_fuel_adequate (f1 f2 : Nat) (st : JState) (u : Nat) (hnd : st.blocked.Nodup)
@@ -159,6 +177,8 @@ example : IsCanonicalElemCircuit gEx [0, 1, 2] :=
   (johnson_sound gEx gEx_wf gEx_noloops gEx_rows).2 _ (by decide)
 example : [0, 1, 2] ∈ circuits gEx :=
   johnson_complete gEx gEx_wf gEx_noloops gEx_rows _ ((allCircuits_spec gEx gEx_wf _).1 (by decide))
+example : circuitsRepeat (AM.ofGraph gEx) 3 (JState.new (AM.ofGraph gEx)) =
+    [[[0, 1], [0, 1, 2], [0, 2]], [[0, 1], [0, 1, 2], [0, 2]], [[0, 1], [0, 1, 2], [0, 2]]] := by decide
 example : (circuits gEx).Perm (allCircuits gEx) := johnson_perm_allCircuits gEx gEx_wf gEx_noloops gEx_rows
 example : IsCanonicalElemCircuit gEx [0, 1, 2] := (allCircuits_spec gEx gEx_wf _).1 (by decide)
 
